@@ -96,6 +96,11 @@ def _(c):
     main.step('current_index == num_timepoints or c_timepoints[current_index] > current_time', label='all-due-rows-recorded')
     # C09: a dt / ode rule runs exactly once per elapsed delta step: the next pass is a rule step iff the delta clock fired in this one
     main.step('rule_step == ite(%s, 1, 0)' % STEPPED, label='rule-step-exactly-when-the-delta-clock-fires')
+    # "the result ends at the first grid time at which the volume model reports division and is flagged as divided": after EVERY volume step the
+    # volume model is asked; the loop goes on only if it reported no division, and it is left early only on a reported division, flagged
+    DIV = 'ifun("vdivided", v, c_current_state, ghost("pvals"), current_time, current_volume, delta_t)'
+    main.step('implies(%s, %s == 0)' % (STEPPED, DIV), label='the-loop-goes-on-after-a-volume-step-only-if-no-division-was-reported')
+    main.at_break('cell_divided == 1 and %s == 1' % DIV, label='left-early-only-on-a-reported-division-and-flagged')
     rec = c.loop(1)
     rec.invariant('entry(current_index, 1) <= current_index and current_index <= num_timepoints', label='index')
     rec.invariant('forall(lambda m, s: implies(entry(current_index, 1) <= m and m < current_index and 0 <= s and s < num_species, '
@@ -114,6 +119,7 @@ def _(c):
     up.invariant('forall(lambda s: implies(s >= species_index, c_current_state[s] == entry(c_current_state[s], 3)))', label='rest')
     # ---- result: cut at division, flagged
     c.ensures('implies(result.cell_divided_flag == 0, result.simulation_result.shape[0] == len(timepoints))', label='all-rows-unless-divided')
+    c.ensures('result.cell_divided_flag == 0 or result.cell_divided_flag == 1', label='flag-is-boolean')
     c.ensures('result.simulation_result.shape[0] == result.volume.shape[0] and result.simulation_result.shape[0] == result.timepoints.shape[0]',
               label='rows-volume-time-aligned')
     c.ensures('result.simulation_result.shape[1] == sim.num_species', label='one-column-per-species')
